@@ -35,12 +35,19 @@
    runs left the first version of this model exactly at that step - and TLC shows what it breaks: the origin ray no
    longer passes through the portal, ContactCommonPoint fails (must fail: vacuity guard), which is C08's known
    finding "contact position outside the colliders" on touching pairs, repaired by a fix: commit.
-   "expand_v1" always replaces portal point 1 when the portal is expanded
+   "unnormalised" (scaled scenes only) uses the raw cross product in the
+   portal tolerance test - the absolute tolerance then scales with the portal area and overlapping pairs are missed: must
+   violate MissIsNotDeep; "expand_v1" always replaces portal point 1 when the portal is expanded
    and must violate PenNeverCapped; "no_reach_test" drops the portal tolerance exit of the refine loop - on polytopes
    the exit "support point behind the origin" already covers it, so that variant passes (the tolerance matters for
    smooth shapes only). *)
 EXTENDS MinNorm, TLC
-CONSTANTS Scenes,        \* set of records [D |-> set of points, c |-> v0]
+CONSTANTS TolNum, TolDen, \* portal tolerance of a SCALED scene: the lattice scene multiplied by s = 2^-k (exact in binary floating
+                         \* point, so every sign decision is the lattice decision) meets the absolute mpr_tolerance = 1e-4:
+                         \* (w - v) . dir < 1e-4  <=>  d * s / |n| < 1e-4  <=>  d^2 * TolNum < TolDen * |n|^2  with
+                         \* TolNum / TolDen = (s / 1e-4)^2  (k = 7: 390625 / 64).  TolNum = 0: unit scale, the tolerance is
+                         \* below every non-zero lattice value and the test is d <= 0.
+          Scenes,        \* set of records [D |-> set of points, c |-> v0]
           MaxIter,       \* max_iterations of the code (100)
           MaxSteps,      \* model bound on support evaluations per phase (Terminates)
           Mode, Variant
@@ -75,7 +82,10 @@ Expand(Q, w) ==
   THEN IF Dot(Q[3], c) > 0 THEN Set(Q, 2, w) ELSE Set(Q, 4, w)
   ELSE IF Dot(Q[4], c) > 0 THEN Set(Q, 3, w) ELSE Set(Q, 2, w)
 
-ReachTol(Q, w, m) == \E i \in 2..4 : Dot(Sub(w, Q[i]), m) <= 0
+WithinTol(d, m) == d <= 0 \/ (TolNum > 0 /\ d <= 64 /\ d * d * TolNum < TolDen * Dot(m, m))
+UnnormTol(d) == d <= 209          \* variant "unnormalised" at k = 7: the raw cross product is s^2 |n| long, the test becomes d s^3 < 1e-4
+ReachTol(Q, w, m) == \E i \in 2..4 : LET d == Dot(Sub(w, Q[i]), m) IN
+                                       IF Variant = "unnormalised" /\ TolNum > 0 THEN UnnormTol(d) ELSE WithinTol(d, m)
 
 StepRay(w) ==
   /\ ph = "ray" /\ UNCHANGED <<D, it, capped>>
@@ -178,5 +188,5 @@ ContactCommonPoint ==
           (SumQ(Fallback) # 0 /\ Dot(P[2], n) = 0) =>
              /\ \A i \in 2..4 : Fallback[i] * SumQ(Fallback) >= 0
              /\ SumVec(Fallback, P) = Zero3
-PortalOnBoundary == why = "pen_done" => \A x \in D : Dot(n, x) <= Dot(n, P[2])
+PortalOnBoundary == why = "pen_done" => \A x \in D : WithinTol(Dot(n, x) - Dot(n, P[2]), n)      \* up to the portal tolerance on scaled scenes
 =============================================================================
